@@ -37,6 +37,8 @@ func main() {
 	verif := flag.String("verif", "/verif", "verif root (evidence, known findings)")
 	replay := flag.String("replay", "", "replay file: re-decide the recorded construct")
 	list := flag.Bool("list", false, "print every obligation")
+	dumpLocals := flag.Bool("dump-locals", false, "print the local-name slot table of the tree (localnames.json is generated from the pinned tree with this)")
+	sym := flag.String("sym", "", "diagnostic: print the symbolic path terms of the named fit functions (comma separated)")
 	flag.Parse()
 	debug.SetGCPercent(400)
 	if t := os.Getenv("VERIF_TIER"); t != "" && !flagSet("tier") {
@@ -44,6 +46,28 @@ func main() {
 	}
 	if *replay != "" {
 		os.Exit(doReplay(*replay, *repo, *verif))
+	}
+	if *dumpLocals {
+		if err := alphaDump(*repo); err != nil {
+			fmt.Fprintln(os.Stderr, err)
+			os.Exit(2)
+		}
+		os.Exit(0)
+	}
+	if *sym != "" {
+		c, err := load(*repo, "quick")
+		if err != nil {
+			fmt.Fprintln(os.Stderr, err)
+			os.Exit(2)
+		}
+		for _, n := range strings.Split(*sym, ",") {
+			o := symPaths(c.ssaFn(c.fn(c.fit, n)), nil, 3)
+			fmt.Println(n, "why:", o.why)
+			for _, p := range o.paths {
+				fmt.Println("   ", p, p.mem)
+			}
+		}
+		os.Exit(0)
 	}
 	if *prop == "" {
 		fmt.Fprintln(os.Stderr, "usage: fitcheck -prop Cxx [-tier quick|thorough]")
